@@ -164,6 +164,22 @@ CHECKS = {
         design="DESIGN.md section 3, C13",
         engine="vlog",
         technique="generated Verilog -> transition relation over bit-vectors (own translator); inductive-step, reset and unrolled bounded-response obligations decided by z3"),
+    "C14": dict(
+        category="proof",
+        text=("GATE PLACEMENT FOR ARBITRARY GATES, IN EXACT ARITHMETIC. BmQSimulator.MatrixFromOp is redirected to a stub whose matrix entries are "
+              "solver variables (real and imaginary part), and BmMatrixFromOperation, swaps2baseSwaps, TensorProductComplex, SwapRowsColsComplex, "
+              "QasmToBmMatrices, RunSoftwareSimulation and MatrixVectorProductComplex are executed symbolically with float32 read as exact reals. "
+              "z3 decides, entry by entry (a polynomial identity in the gate entries): the matrix emitted for a layer equals the operator defined "
+              "by applying each gate to the qubits it names (every subset of one-qubit gates, every ordered pair for a two-qubit gate with every "
+              "idle/gated choice of the other qubits, every ordered disjoint pair of two two-qubit gates; up to 3 qubits quick, 4 thorough); the "
+              "product of the matrices QasmToBmMatrices emits equals the gates applied in program order and the software simulation maps every "
+              "basis state to the corresponding column (enumerated circuits). NOT decided: IEEE-754 rounding and the tolerance in the property, "
+              "the gate constant tables and parametric gates (stubbed), unitarity of each gate, 5 qubits, three-qubit gates."),
+        note=("Trusted: z3 (nonlinear real arithmetic; each real obligation in a fresh solver context), go/ssa, /verif/symgo with floats as exact "
+              "reals. Counterexamples are replayed natively with the real gate tables and a 1e-4 tolerance. One genuine defect repaired "
+              "(fix: 6d0e87d): a second multi-qubit gate of a layer was placed by the original numbering of its qubits."),
+        design="DESIGN.md section 3, C14; Changes after round 0",
+        technique="go/ssa symbolic execution with gate matrices as symbolic reals; entrywise polynomial identities against the defined operator decided by z3 (NRA)"),
     "C15": dict(
         category="proof",
         text=("Parts 1 and 2 of the design, decided by SMT: for each of the 14 rule forms and each enumerated object/extra length, with field "
@@ -242,7 +258,7 @@ def main():
         ],
         "checks": checks,
         "not_applicable": na,
-        "notes": "fix: commits in /repo: bc191a3, 7728b54 (C03), f0fe4e6 (C08), 31ff0b2 (C01), 70761df (C09). Known findings and fixed entries: /verif/known_findings.json.",
+        "notes": "fix: commits in /repo: bc191a3, 7728b54 (C03), f0fe4e6 (C08), 31ff0b2 (C01), 70761df (C09), 6d0e87d (C14). Known findings and fixed entries: /verif/known_findings.json.",
     }
     with open(os.path.join(ROOT, "MANIFEST.json"), "w") as f:
         json.dump(m, f, indent=1)
